@@ -1476,6 +1476,41 @@ func (g *vC08Gen) hostileBytes(n int) {
 
 // mutate exercises a built message: truncations, byte and length-field
 // mutations, insertions, deletions, type confusion and splices.
+// craftedMasks: a valid aggregated transaction ends with [mask type][u16 length][mask bytes]; the tail is
+// replaced by masks of 8191..8194 and 65535 bytes with the highest bit set (signer indexes 65527..65551, 524279).
+func (g *vC08Gen) craftedMasks(n int) {
+	rng := g.rng
+	for i := 0; i < n; i++ {
+		tx := vC08RandTx(rng, 64)
+		tx.SignaturesMap = nil
+		tx.AggregatedSignature = &common.AggregatedSignature{Signature: crypto.Signature(vC08Rand64(rng)), Signers: []int{0, 1, 2}}
+		var enc []byte
+		if p, _, _ := verifkit.Guard(func() { enc = tx.Marshal() }); p || len(enc) < 8 {
+			continue
+		}
+		// tail of the valid encoding: type byte 0x01? + u16(1) + one mask byte
+		oldTail := 2 + 1
+		L := []int{8191, 8192, 8193, 8194, 65535}[rng.Intn(5)]
+		mask := make([]byte, L)
+		mask[0] = 0x07
+		mask[L-1] = byte(1) << uint(rng.Intn(8))
+		crafted := append([]byte{}, enc[:len(enc)-oldTail]...)
+		crafted = append(crafted, byte(L>>8), byte(L))
+		crafted = append(crafted, mask...)
+		single := append([]byte{PeerMessageTypeTransaction}, crafted...)
+		bundle := func(typ byte) []byte {
+			b := []byte{typ, 1}
+			b = binary.BigEndian.AppendUint32(b, uint32(len(crafted)))
+			return append(b, crafted...)
+		}
+		for _, data := range [][]byte{single, bundle(PeerMessageTypeTransactionBundle), bundle(PeerMessageTypeFinalizedTransactionBundle)} {
+			msg, err := g.mon.parse(uint8(rng.Intn(256)), data, "crafted-aggregate-mask")
+			g.r.Count(fmt.Sprintf("crafted_mask_len_%d_%s", L, map[bool]string{true: "accepted", false: "rejected"}[err == nil && msg != nil]), 1)
+			g.r.Nontrivial(fmt.Sprintf("crafted|%d|%d|%v", data[0], L, err == nil))
+		}
+	}
+}
+
 func (g *vC08Gen) mutate(b vC08Built, systematic bool, randomOps int) {
 	rng := g.rng
 	kind := b.kind[5:]
@@ -1646,6 +1681,10 @@ func TestVerif_C08(t *testing.T) {
 
 	// part A: hostile bytes
 	g.hostileBytes(r.N(400000, 6000000))
+
+	// part E: transactions whose aggregate-signature mask was rewritten by hand (lengths around the largest signer
+	// index the encoding can carry), inside every message type that carries transaction bodies
+	g.craftedMasks(r.N(40, 600))
 
 	// part D: mutations of built messages
 	nsys := r.N(160, 1500)
